@@ -3,13 +3,60 @@ Allocation-heavy units x {compiled executable, interpreter on a saved .ao} x col
 points of the run (A measured by a counting run through the ALDOR_VERIF hook in stoAlloc): never, automatic, a forced
 collection at every single point i (all i for compiled units; every point of the program's own window for the
 interpreter), periodic schedules every k-th allocation with every offset, every allocation, and pairs of points.
-Freed storage is poisoned.  Oracle: stdout and exit class equal the no-collection run; no fault."""
+Freed storage is poisoned.  Scale: one live structure of 10^3..10^6 cells in four shapes (library list, chain linked through
+the last / the first field, array of cells) with collections while it is live.  Oracle: stdout and exit class equal the no-collection run; no fault."""
 import os, re, sys, shutil
 from vlib.common import Check, run, pmap, VERIF, NCPU
 from vlib import families, progspace, progrun, faults
 from vlib.runners import TC, mkdir, write
 
 PID = 'C09'
+
+
+SCALE_HEAD = '#include "aldor"\n#include "aldorio"\nimport from MachineInteger;\n'
+# each program builds ONE structure of @N@ cells, allocates a little more while it is live, then walks it
+SHAPES = {
+    'list': '''import from List MachineInteger;
+l: List MachineInteger := empty;
+for i in 1..@N@ repeat l := cons(i, l);
+t: List MachineInteger := empty;
+for i in 1..1000 repeat t := cons(i, t);
+s: MachineInteger := 0;
+for x in l repeat s := s + x;
+stdout << "K0:" << s << " " << #l << newline;
+''',
+    'chain-link-last': '''Cell ==> Record(val: MachineInteger, next: Pointer);
+import from Cell;
+c: Cell := [0, nil$Pointer];
+for i in 1..@N@ repeat c := [i, c pretend Pointer];
+t: Cell := [0, nil$Pointer];
+for i in 1..1000 repeat t := [i, t pretend Pointer];
+s: MachineInteger := 0; k: MachineInteger := 0;
+p: Cell := c;
+while not nil?(p.next) repeat { s := s + p.val; k := k + 1; p := (p.next) pretend Cell }
+stdout << "K0:" << s << " " << k << newline;
+''',
+    'chain-link-first': '''Cell ==> Record(next: Pointer, val: MachineInteger);
+import from Cell;
+c: Cell := [nil$Pointer, 0];
+for i in 1..@N@ repeat c := [c pretend Pointer, i];
+t: Cell := [nil$Pointer, 0];
+for i in 1..1000 repeat t := [t pretend Pointer, i];
+s: MachineInteger := 0; k: MachineInteger := 0;
+p: Cell := c;
+while not nil?(p.next) repeat { s := s + p.val; k := k + 1; p := (p.next) pretend Cell }
+stdout << "K0:" << s << " " << k << newline;
+''',
+    'array-of-cells': '''import from Array List MachineInteger, List MachineInteger;
+a: Array List MachineInteger := new(@N@, empty);
+for i in 1..@N@ repeat a(i - 1) := cons(i, empty);
+t: List MachineInteger := empty;
+for i in 1..1000 repeat t := cons(i, t);
+s: MachineInteger := 0; k: MachineInteger := 0;
+for i in 1..@N@ repeat { s := s + first(a(i - 1)); k := k + 1 }
+stdout << "K0:" << s << " " << k << newline;
+''',
+}
 
 
 def units_for(tier):
@@ -124,6 +171,56 @@ def main(tier):
         kind = sched.split(':')[0] + (':pair' if ',' in sched else '')
         key = 'unit=%s,Q%d,route=%s,schedule=%s' % (name, q, route, kind)
         bad.setdefault(key, []).append((sched, cls, det, r.rc, got[:5], r.text()[-300:]))
+    # ---- scale: one long-lived structure of n cells, collections while it is live (the marker walks it in one go)
+    sizes = (1000, 10000, 100000, 300000, 1000000)
+    sjobs = []
+    for shape in sorted(SHAPES):
+        for n in sizes:
+            for route in ('c', 'interp'):
+                for sched in (None, 'every:%d:0' % (n // 3 + 1), 'every:%d:7' % (n // 2 + 1)):
+                    if tier == 'quick' and route == 'interp' and (sched or '').endswith(':7'):
+                        continue
+                    sjobs.append((shape, n, route, sched))
+    sdirs = {}
+    for shape in sorted(SHAPES):
+        for n in sizes:
+            d = mkdir('%s/scale-%s-%d' % (ck.work, shape, n))
+            src = write(d + '/u.as', SCALE_HEAD + SHAPES[shape].replace('@N@', str(n)))
+            sdirs[(shape, n)] = d
+
+    def sprep(k):
+        d = sdirs[k]
+        exe, r = tc.cexe(d + '/u.as', ('-Q1',), d)
+        r2 = tc.aldor(['-Q1', '-Fao', 'u.as'], d)
+        return k, (exe, (r.text() if not exe else '') + (r2.text() if r2.rc else ''))
+    sexe = dict(pmap(sprep, sorted(sdirs)))
+    for k, (exe, msg) in sorted(sexe.items()):
+        if not exe or msg:
+            ck.report('scale-unit-build-failed=%s' % k[0], msg[-600:], files={'u.as': SCALE_HEAD + SHAPES[k[0]].replace('@N@', str(k[1]))})
+
+    def sone(j):
+        shape, n, route, sched = j
+        if ck.expired() or not sexe[(shape, n)][0]:
+            return j, None
+        d = sdirs[(shape, n)]
+        env = {'ALDOR_VERIF_GC': ('m' if route == 'interp' else '') + sched} if sched else {}
+        if route == 'c':
+            return j, tc.runexe(sexe[(shape, n)][0], cwd=d, env=env, timeout=600)
+        return j, tc.aldor(['-Wgc', '-laldor', '-Ginterp', 'u.ao'], d, env=env, timeout=600)
+    for j, r in pmap(sone, sjobs):
+        shape, n, route, sched = j
+        if r is None:
+            ck.cut('scale run not made')
+            continue
+        ck.count()
+        want = ['K0:%d %d' % (n * (n + 1) // 2, n)]
+        cls, det = faults.classify(r)
+        if cls == 'ok' and r.rc == 0 and lines(r) == want:
+            ck.nontrivial(('scale', shape, n, route, sched))
+            continue
+        ck.report('scale=%s,n=%d,route=%s' % (shape, n, route), '%s of %d cells, route %s, ALDOR_VERIF_GC=%s: %s %s rc=%s got %s want %s\n%s' % (shape, n, route, sched, cls, det, r.rc, lines(r), want, r.text()[-300:]),
+                  files={'u.as': SCALE_HEAD + SHAPES[shape].replace('@N@', str(n))},
+                  cmds=['# build u.as at -Q1 with the ALDOR_VERIF build of this tree, then:', 'ALDOR_VERIF_GC=%s ./u.exe' % sched])
     for key, lst in sorted(bad.items()):
         sched, cls, det, rc, got, tail = lst[0]
         m = re.match(r'unit=([^,]+),Q(\d),route=(\w+)', key)
